@@ -36,12 +36,20 @@ META = {
              "spec: calls recorded from a seeded random driver (chains up to 200 samples) and, in the thorough tier, from "
              "tests/test_samples.py and tests/test_geometry.py are validated by TLC against TraceSamplesOps.tla (flag automaton, "
              "indices, and the recorded frame of every call incl. compute_rhat: receiver, list length, element identities and "
-             "contents before / after)."),
+             "contents before / after). Call forms and views: every burnthin transition is also taken with its arguments by "
+             "keyword and, for t = 1, with Nt omitted (same refusal, same result; Samples and JointSamples); per reachable object "
+             "Ns, shape (shape of one sample followed by Ns), iteration order, compute_ci / ci_width with percent by keyword and "
+             "omitted (documented default 95), refusal of (is_par, not is_vec) at the constructor and the is_vec setter, and the "
+             "values and is_par flag that plot_mean / plot_median / plot_variance / plot_std / plot_ci_width(p) hand to "
+             "geometry.plot (exact statistic; for function samples in vector form the statistic of the converted samples - "
+             "PlotStatsOK) are compared with the specification."),
     "note": ("Bounded chain lengths, burn-in / thinning boxes, eight fixed small geometries and a finite set of credibility "
              "levels; statistics are compared on integer-valued chains with distinct entries per coordinate. "
              "Samples.vector for Continuous2D function values (not implemented by the library) and ESS/R-hat of "
              "function-value samples whose dimension differs from the parameter dimension are outside the asserted "
-             "behaviour. Exception types of refused burn-in values are not asserted."),
+             "behaviour. Exception types of refused burn-in values are not asserted. Not exercised (no exact oracle in the "
+             "documentation): plot_ci, plot, plot_chain, hist_chain, the arviz plots, diagnostics (Geweke), __repr__, other arviz "
+             "keyword arguments; the statistic plots are intercepted at geometry.plot with pyplot of the samples module stubbed."),
     "technique": "TLA+ spec (SamplesOps) model-checked with TLC; TLC-emitted transitions and exact statistics replayed "
                  "into cuqi.samples.Samples / JointSamples; arviz entry points wrapped in the harness process; recorded "
                  "calls validated by TLC against TraceSamplesOps.tla",
@@ -197,9 +205,13 @@ def compare_object(ctx, sig, case, real, abstract, node, geom, which="stats"):
     return ok
 
 
-def apply_op(real, op):
+def apply_op(real, op, form="pos"):
     name = op["name"]
     if name == "burnthin" or name == "jointburnthin":
+        if form == "kw":                    # the documented parameter names
+            return real.burnthin(Nt=op["t"], Nb=op["b"])
+        if form == "default":               # Nt omitted: the specification offers this form only for t = DefaultNt
+            return real.burnthin(op["b"])
         return real.burnthin(op["b"], op["t"])
     if name == "funvals":
         return real.funvals
@@ -209,6 +221,48 @@ def apply_op(real, op):
         return real.parameters
     from cuqiverif.core import MachineryError
     raise MachineryError("unknown action %r emitted by the spec" % name)
+
+
+def _other_forms(ctx, sig, case, live, e, node, geoms, c):
+    """The other documented forms of the same call (arguments by keyword; Nt omitted when t is the default): the same
+    transition of the specification - same refusal, same result."""
+    from cuqi.samples import JointSamples
+    op = e["op"]
+    ok = True
+    for form in sorted(op.get("forms", ())):
+        if form == "pos":
+            continue
+        fsig = "%s/form=%s" % (sig, form)
+        ctx.facets["call_form_" + form] = ctx.facets.get("call_form_" + form, 0) + 1
+        try:
+            with warnings.catch_warnings():
+                warnings.simplefilter("ignore")
+                res = apply_op(live.real, op, form)
+            raised = None
+        except Exception as ex:          # noqa: BLE001
+            res, raised = None, ex
+        if e["err"]:
+            if raised is None:
+                ctx.mismatch("refusal/" + fsig, case, "burn-in >= number of samples must be refused; the call returned",
+                             expected="an exception", observed=[m.samples.shape for m in members(res)] if res is not None else None)
+                ok = False
+            continue
+        if raised is not None:
+            ctx.mismatch("raises/" + fsig, case, "the call raised although the specification defines a result: %r" % (raised,),
+                         expected=e["post"], observed=repr(raised))
+            ok = False
+            continue
+        if c["joint"]:
+            if not isinstance(res, JointSamples) or sorted(res.keys()) != ["x", "y"]:
+                ctx.mismatch("joint/" + fsig, case, "JointSamples.burnthin must return the same members", ["x", "y"], repr(res))
+                ok = False
+                continue
+            ok &= compare_object(ctx, fsig + "/member=x", case, res["x"], e["post"], node, geoms[0], "stats")
+            ok &= compare_object(ctx, fsig + "/member=y", case, res["y"], e["post2"], node, geoms[1], "stats2")
+        else:
+            ok &= compare_object(ctx, fsig, case, res, e["post"], node, geoms[0], "stats")
+        ok &= check_untouched(ctx, fsig, case, live)
+    return ok
 
 
 def step(ctx, graph, ck, geoms, live, e, chain_ops):
@@ -253,6 +307,7 @@ def step(ctx, graph, ck, geoms, live, e, chain_ops):
                          expected="an exception", observed=[m.samples.shape for m in members(res)] if res is not None else None)
             return None
         check_untouched(ctx, sig, case, live)
+        _other_forms(ctx, sig, case, live, e, None, geoms, c)
         return live
     if raised is not None:
         ctx.mismatch("raises/" + sig, case, "the call raised although the specification defines a result: %r" % (raised,),
@@ -273,6 +328,8 @@ def step(ctx, graph, ck, geoms, live, e, chain_ops):
         ok &= compare_object(ctx, sig, case, res, e["post"], node, geoms[0], "stats")
     ok &= check_untouched(ctx, sig, case, live)
     if not ok:
+        return None
+    if not _other_forms(ctx, sig, case, live, e, node, geoms, c):
         return None
     anc = list(live.ancestors)
     known = {id(s) for s, _ in anc}
@@ -304,6 +361,7 @@ def check_stats(ctx, ck, c, real, node):
             ctx.mismatch("stats_raise/" + sig0, case, "a statistic of an array-valued sample set raised: %r" % (ex,))
             return
     ctx.case(("stats", ck, okey(o)), facet="stats")
+    check_views(ctx, ck, c, real, node, shape)
     for name, arr in got.items():
         if np.shape(arr) != shape:
             ctx.mismatch("stats_shape/%s/%s" % (name, sig0), case, "statistic is not per coordinate over the sample axis "
@@ -335,6 +393,149 @@ def check_stats(ctx, ck, c, real, node):
             if not (lo <= med + 1e-9 * max(1, abs(med)) and med <= hi + 1e-9 * max(1, abs(med))):
                 ctx.mismatch("stats/lomedhi/" + tag, case, "lower bound <= median <= upper bound fails", [elo, exp["median"], ehi],
                              [lo, med, hi])
+
+
+# ---------------------------------------------------------------------------------------------------------------
+# views of the stored array (Ns, shape, iteration), default / keyword forms of the interval methods, statistic plots
+class _PltStub:
+    """stands in for matplotlib.pyplot inside cuqi.samples._samples while a statistic plot is intercepted"""
+    def __getattr__(self, name):
+        return lambda *a, **k: None
+
+
+@contextlib.contextmanager
+def _plot_capture(geom, calls):
+    """geometry.plot of THIS geometry object records what it is handed; pyplot of the samples module is a stub"""
+    from cuqiverif.core import MachineryError
+    import cuqi.samples._samples as S
+    if not hasattr(S, "plt") or not callable(getattr(type(geom), "plot", None)):
+        raise MachineryError("interception points of the statistic plots disappeared (cuqi.samples._samples.plt / Geometry.plot)")
+
+    def rec(values, *a, **k):
+        calls.append((np.array(values, dtype=float, copy=True), a, dict(k)))
+        return ["plotted"]
+    old = S.plt
+    S.plt = _PltStub()
+    geom.plot = rec                         # instance attribute shadows the method for the duration of the call
+    try:
+        yield
+    finally:
+        del geom.plot
+        S.plt = old
+
+
+def check_views(ctx, ck, c, real, node, shape):
+    """Ns, shape, iteration order; compute_ci / ci_width with percent by keyword and omitted (documented default 95);
+    plot_mean / plot_median / plot_variance / plot_std / plot_ci_width hand the exact statistic (as function values when the
+    samples are function values in vector form) and is_par of the object to geometry.plot."""
+    o = node["obj"]
+    if "ns" not in node:
+        return
+    sig0 = "%s/%s" % (cstr(c), ostr(o))
+    case = {"kind": "node", "c": c, "obj": o}
+    stats = node["stats"]
+    n = len(o["cols"])
+    exp = expected_array(stats, n)
+    ctx.case(("views", ck, okey(o)), facet="views")
+    try:
+        got = {"Ns": real.Ns, "shape": list(real.shape)}
+    except Exception as ex:      # noqa: BLE001
+        got = {"raised": repr(ex)}
+    if got != {"Ns": node["ns"], "shape": list(node["shape"])}:
+        ctx.mismatch("views/shape/" + sig0, case, "Ns / shape are not the number of stored samples / the shape of one sample followed by Ns",
+                     {"Ns": node["ns"], "shape": list(node["shape"])}, got)
+    try:
+        items = [np.array(x, dtype=float) for x in real]
+    except Exception as ex:      # noqa: BLE001
+        items = repr(ex)
+    if isinstance(items, str) or len(items) != n or any(x.shape != exp.shape[:-1] or not np.array_equal(x, exp[..., i]) for i, x in enumerate(items)):
+        ctx.mismatch("views/iter/" + sig0, case, "iterating the sample set does not yield the stored samples in order",
+                     [exp[..., i] for i in range(n)], items)
+    # --- FlagsLegal at the constructor / the is_vec setter: (is_par, not is_vec) does not exist (refused or corrected)
+    if o["par"]:
+        from cuqi.samples import Samples
+        for how in ("constructor", "setter"):
+            try:
+                if how == "constructor":
+                    s2 = Samples(np.array(real.samples, copy=True), geometry=real.geometry, is_par=True, is_vec=False)
+                else:
+                    s2 = Samples(np.array(real.samples, copy=True), geometry=real.geometry, is_par=True, is_vec=True)
+                    s2.is_vec = False
+            except Exception:        # noqa: BLE001  (a refusal; the type is not asserted)
+                continue
+            if bool(s2.is_par) and not bool(s2.is_vec):
+                ctx.mismatch("flags/illegal/%s/%s" % (how, sig0), case, "a sample set of parameters that is not in vector form "
+                             "was created (FlagsLegal: is_par => is_vec)", [True, True], [s2.is_par, s2.is_vec])
+    # --- percent by keyword / omitted
+    with warnings.catch_warnings():
+        warnings.simplefilter("ignore")
+        for ci0 in stats[0]["ci"]:
+            p = ci0["pct"]
+            forms = [("kw", lambda p=p: (real.compute_ci(percent=p), real.ci_width(percent=p)))]
+            if p == node.get("default_pct"):
+                forms.append(("default", lambda: (real.compute_ci(), real.ci_width())))
+            for form, fn in forms:
+                ctx.facets["call_form_percent_" + form] = ctx.facets.get("call_form_percent_" + form, 0) + 1
+                tag = "%s/pct=%d/form=%s" % (sig0, p, form)
+                try:
+                    lohi, width = fn()
+                    lohi, width = np.asarray(lohi, dtype=float), np.asarray(width, dtype=float)
+                except Exception as ex:      # noqa: BLE001
+                    ctx.mismatch("stats_raise/ci/" + tag, case, "compute_ci / ci_width raised: %r" % (ex,))
+                    continue
+                if lohi.shape != (2,) + shape or width.shape != shape:
+                    ctx.mismatch("stats_shape/ci/" + tag, case, "credible interval bounds are not (lower, upper) per coordinate",
+                                 [2] + list(shape), list(lohi.shape))
+                    continue
+                for s in stats:
+                    q = tuple(s["pos"])
+                    ci = [x for x in s["ci"] if x["pct"] == p][0]
+                    elo, ehi, ew = float(frac(ci["lo"])), float(frac(ci["hi"])), float(frac(ci["width"]))
+                    if not (_close(float(lohi[0][q]), elo) and _close(float(lohi[1][q]), ehi)):
+                        ctx.mismatch("stats/ci/%s/pos=%s" % (tag, "x".join(map(str, q))), case, "credible interval bounds differ from the "
+                                     "percentiles (100-p)/2 and 100-(100-p)/2 (percent %s)" % ("omitted: documented default 95" if form == "default" else "by keyword"),
+                                     [elo, ehi], [float(lohi[0][q]), float(lohi[1][q])])
+                    if not _close(float(width[q]), ew):
+                        ctx.mismatch("stats/ci_width/%s/pos=%s" % (tag, "x".join(map(str, q))), case, "interval width is not upper - lower bound",
+                                     ew, float(width[q]))
+    # --- statistic plots
+    pstats = node["plot"]["stats"] or stats
+    ppos = [tuple(s["pos"]) for s in pstats]
+    pshape = tuple(max(q[a] for q in ppos) + 1 for a in range(len(ppos[0])))
+
+    def arr(fn):
+        A = np.empty(pshape)
+        for s in pstats:
+            A[tuple(s["pos"])] = fn(s)
+        return A
+    plots = [("plot_mean", (), arr(lambda s: float(frac(s["mean"])))), ("plot_median", (), arr(lambda s: float(frac(s["med"])))),
+             ("plot_variance", (), arr(lambda s: float(frac(s["var"])))), ("plot_std", (), arr(lambda s: math.sqrt(float(frac(s["var"])))))]
+    for k, ci0 in enumerate(pstats[0]["ci"]):
+        plots.append(("plot_ci_width", (ci0["pct"],), arr(lambda s, k=k: float(frac(s["ci"][k]["width"])))))
+    for name, args, want in plots:
+        tag = "%s/%s%s" % (name, sig0, "/pct=%d" % args[0] if args else "")
+        calls = []
+        ctx.facets["statistic_plots"] = ctx.facets.get("statistic_plots", 0) + 1
+        try:
+            with warnings.catch_warnings(), contextlib.redirect_stdout(io.StringIO()), _plot_capture(real.geometry, calls):
+                warnings.simplefilter("ignore")
+                getattr(real, name)(*args)
+        except Exception as ex:      # noqa: BLE001
+            from cuqiverif.core import MachineryError
+            if isinstance(ex, MachineryError):
+                raise
+            ctx.mismatch("plot_raise/" + tag, case, "a statistic plot of an array-valued sample set raised: %r" % (ex,))
+            continue
+        if not calls:
+            ctx.mismatch("plot_handover/" + tag, case, "the statistic plot did not hand anything to geometry.plot", want, None)
+            continue
+        vals, _a, kw = calls[0]
+        if vals.shape != want.shape or not np.allclose(vals, want, rtol=RTOL, atol=0):
+            ctx.mismatch("plot_handover/" + tag, case, "the values handed to geometry.plot are not the exact statistic of the stored chain "
+                         "(as function values for function samples in vector form)", want, vals)
+        elif bool(kw.get("is_par", True)) != bool(node["plot"]["is_par"]):
+            ctx.mismatch("plot_handover/%s/is_par" % tag, case, "geometry.plot is told the wrong representation of the statistic",
+                         node["plot"]["is_par"], kw.get("is_par", "omitted (True)"))
 
 
 # ---------------------------------------------------------------------------------------------------------------
